@@ -59,6 +59,11 @@ func (rr *NSEC3) Cover(name string) bool {
 
 	nextHash := rr.NextDomain
 
+	// A name whose hash equals the owner hash is matched by this record, never covered.
+	if nameHash == ownerHash {
+		return false
+	}
+
 	// if empty interval found, try cover wildcard hashes so nameHash shouldn't match with ownerHash
 	if ownerHash == nextHash && nameHash != ownerHash { // empty interval
 		return true
